@@ -464,12 +464,13 @@ PROPS["C29"] = {
     "rule": ("bursts of 2..8 (11 thorough) calls (async &self / &mut self handlers that log start, yield 0..4 times, park on a harness gate, "
              "yield, log end; plus non-waiting handlers; some with the no-reply flag) to two instances of an interface registered with "
              "spawn = false and to a spawning interface, delivered in arbitrary read chunks under 6 scheduler biases, with the gates "
-             "opened in reversed / random / first-call-last order, some before the calls arrive; at quiescence the no-spawn log must be "
+             "opened in reversed / random / first-call-last order, some before the calls arrive; in a quarter of the bursts the application holds the sequential "
+             "interface exclusively (InterfaceRef::get_mut) while the burst arrives and releases it at a random point of the gate order; at quiescence the no-spawn log must be "
              "start(1) end(1) start(2) end(2).. in arrival order and every call must have exactly one reply (none with no-reply); "
              "head-of-line cases keep the first call parked with all other gates open: nothing else may start; distinct = distinct "
              "(gate order, schedule)"),
     "gates": {"quick": {"evaluations": 3500, "distinct": 2500, "sequential_calls_checked": 10000, "class:burst-with-2+-sequential-calls": 1500,
-                        "class:spawned-handlers-overlapped": 100, "class:head-of-line-parked": 600},
+                        "class:spawned-handlers-overlapped": 100, "class:head-of-line-parked": 600, "class:interface-held-exclusively-by-the-application": 500},
               "thorough": {"evaluations": 150000, "distinct": 100000}},
     "assumptions": ["handler start/end are logged by the handlers themselves; arrival order is the order of the calls in the byte stream the scripted peer sent"],
 }
